@@ -625,6 +625,86 @@ func init() {
 						r.Fail("bundle.Unwrap|entry-without-resource-shifts-positions", core.W{"len": len(got)})
 					}
 				}},
+				{Name: "bundles-from-one-entry-list", N: 1, Note: "bundles of every type built from every prefix of one caller-owned entry list (with spare capacity), then each of them extended or re-built with further entries (Extend / New* with WithEntries, every order of two such steps): the caller's list and every other bundle still unwrap to what they held", Run: func(_ int, r *core.Rec) {
+					mkPool := func() ([]fhir.Resource, []*bcrpb.Bundle_Entry) {
+						var rs []fhir.Resource
+						es := make([]*bcrpb.Bundle_Entry, 0, 12) // spare capacity: what an append in place would write into
+						for k := 0; k < 5; k++ {
+							p := &ppb.Patient{Id: fhir.ID(fmt.Sprintf("e%d", k))}
+							rs = append(rs, p)
+							es = append(es, bundle.NewCollectionEntry(p))
+						}
+						return rs, es
+					}
+					ctors := []struct {
+						name string
+						mk   func(...bundle.Option) *bcrpb.Bundle
+					}{{"NewCollection", bundle.NewCollection}, {"NewTransaction", bundle.NewTransaction}, {"NewBatch", bundle.NewBatch}, {"NewSearchset", bundle.NewSearchset}, {"NewHistory", bundle.NewHistory}}
+					ids := func(rs []fhir.Resource) string {
+						var out []string
+						for _, x := range rs {
+							if x == nil {
+								out = append(out, "<nil>")
+							} else {
+								out = append(out, resource.ID(x))
+							}
+						}
+						return strings.Join(out, ",")
+					}
+					for _, ct := range ctors {
+						for k1 := 0; k1 <= 4; k1++ {
+							for k2 := 0; k2 <= 5; k2++ {
+								for _, step := range []string{"Extend", "Extend-twice", "New-from-the-other-prefix"} {
+									rs, es := mkPool()
+									extra := bundle.NewCollectionEntry(&ppb.Patient{Id: fhir.ID("extra")})
+									extra2 := bundle.NewCollectionEntry(&ppb.Patient{Id: fhir.ID("extra2")})
+									var b1, b2 *bcrpb.Bundle
+									var u2before string
+									pi := core.Try(func() {
+										b1 = ct.mk(bundle.WithEntries(es[:k1]...))
+										b2 = ct.mk(bundle.WithEntries(es[:k2]...))
+										u2before = ids(bundle.Unwrap(b2))
+										switch step {
+										case "Extend":
+											bundle.Extend(b1, bundle.WithEntries(extra))
+										case "Extend-twice":
+											bundle.Extend(b1, bundle.WithEntries(extra))
+											bundle.Extend(b1, bundle.WithEntries(extra2))
+										default:
+											ct.mk(bundle.WithEntries(append(es[:k1], extra)...)) // the caller appends to its own prefix: its business, but b2 was built before
+										}
+									})
+									r.Eval()
+									r.State("bundles-from-one-list|" + step)
+									r.Nontrivial(ct.name, fmt.Sprint(k1, k2), step)
+									w := core.W{"constructor": ct.name, "first_bundle_from": fmt.Sprintf("entries[:%d]", k1), "second_bundle_from": fmt.Sprintf("entries[:%d]", k2), "step": step}
+									if pi != nil {
+										r.Fail("bundle|from-one-list|"+pi.Key(), w)
+										continue
+									}
+									if step != "New-from-the-other-prefix" {
+										// the library was only asked to change b1: the caller's list is what it was
+										for k := range es {
+											if got := containedresource.Unwrap(es[k].GetResource()); got == nil || resource.ID(got) != resource.ID(rs[k]) {
+												w["caller_entry"], w["now"] = k, fmt.Sprint(es[k])
+												r.Fail("bundle|from-one-list|callers-entry-list-overwritten", w)
+												break
+											}
+										}
+										if now := ids(bundle.Unwrap(b2)); now != u2before {
+											w["second_bundle_before"], w["second_bundle_now"] = u2before, now
+											r.Fail("bundle|from-one-list|another-bundle-changed", w)
+										}
+										if un := bundle.Unwrap(b1); len(un) == 0 || resource.ID(un[len(un)-1]) != map[string]string{"Extend": "extra", "Extend-twice": "extra2"}[step] {
+											w["first_bundle_now"] = ids(un)
+											r.Fail("bundle|from-one-list|extended-bundle-does-not-end-with-the-new-entry", w)
+										}
+									}
+								}
+							}
+						}
+					}
+				}},
 				{Name: "extension-value-types", N: len(vx) + len(elemNames), Note: "49 Extension.value[x] alternatives from the descriptor + every registered element type", Run: func(i int, r *core.Rec) {
 					legal := map[string]protoreflect.FieldDescriptor{}
 					for _, fd := range vx {
@@ -678,10 +758,10 @@ func init() {
 						r.Fail("extension.FromElement|illegal-value-type-accepted|"+name, core.W{"element": name, "err": fmt.Sprint(err)})
 					}
 				}},
-				{Name: "extension-mutators", N: nLists, Note: fmt.Sprintf("%d extension lists (length 0..4 over 3 URLs) x 8 mutators x 2 target URLs x 2 carriers", nLists), Run: func(i int, r *core.Rec) {
+				{Name: "extension-mutators", N: nLists, Note: fmt.Sprintf("%d extension lists (length 0..4 over 3 URLs) x 8 mutators x 3 target URLs x 2 carriers", nLists), Run: func(i int, r *core.Rec) {
 					seq := c10Seq(i, 3)
 					for _, carrier := range []string{"Patient", "HumanName"} {
-						for _, target := range []string{"http://u", "http://x"} {
+						for _, target := range []string{"http://u", "http://x", "http://u "} { // the last one differs from the first by a trailing blank: another URL
 							for _, mut := range []struct {
 								name string
 								kind string
